@@ -32,7 +32,7 @@ def _mem(a):
 POINTS = [(Fraction(1, 4), 20), (Fraction(1, 2), 10), (Fraction(1, 4), 20), (Fraction(1, 3), 10), (Fraction(3, 4), 30), (Fraction(1, 4), 10)]
 
 
-def fold_history(proj, base, obs_lists, n_calls=1, xgrid=None):
+def fold_history(proj, base, obs_lists, n_calls=1, xgrid=None, weights="opaque"):
     """Fold a runner whose observables dict is built from obs_lists = [(name, [point indices])]."""
     cell = R.Cell(obs=obs_lists[0][0], **dict(base, nf=None))
     th = R.theory_card(cell)
@@ -67,7 +67,8 @@ def fold_history(proj, base, obs_lists, n_calls=1, xgrid=None):
     R._install_eko_overrides(ev, proj, ext)
     runner = ev.instantiate(S.ClassVal(ev, proj.cls("yadism.runner", "Runner")), [th, ob], {})
     R.install_result_summaries(ev)
-    R.opaque_weights(ev)
+    if weights == "opaque":
+        R.opaque_weights(ev)
     outs = [ev.call(ev.getattr(runner, "get_result", None), [], {}) for _ in range(n_calls)]
     return runner, outs
 
